@@ -3,7 +3,7 @@ import contextlib
 import io
 from util import hb, exc_class
 import isoutil as iu
-from props.framing import block_ref
+from props.framing import block_ref, in_stream
 
 ID = 'C10'
 RULE = ('files of n = 1..8 records x every position k of the bad record x fault kind {truncated record, length above the maximum, '
@@ -104,7 +104,7 @@ def impl_resilient(case):
     ev = []
     res = {}
     try:
-        reader = mciipm.IpmReader(io.BytesIO(f), encoding=case['codec'], blocked=case['blocked'])
+        reader = mciipm.IpmReader(in_stream(f), encoding=case['codec'], blocked=case['blocked'])
         for _ in range(len(f) // 4 + 8):
             try:
                 ev.append('R' + (iu.dict_text(next(reader)) or '~'))
@@ -165,7 +165,7 @@ def impl(case):
     recs = []
     res = {}
     try:
-        reader = mciipm.IpmReader(io.BytesIO(f), encoding=case['codec'], blocked=case['blocked'])
+        reader = mciipm.IpmReader(in_stream(f), encoding=case['codec'], blocked=case['blocked'])
         style = case.get('style', 'loop')
         if style == 'next-then-loop':          # read a header record with next(), then loop over the rest
             try:
